@@ -298,6 +298,15 @@ class Timeout(Exception):
     pass
 
 
+def far(a, b, tol):
+    """True unless a and b agree within tol; a NaN on one side only is a disagreement (written so that NaN never passes silently)"""
+    if a == b:
+        return False
+    if a != a and b != b:
+        return False
+    return not (abs(a - b) <= tol)
+
+
 class PropertyCheck:
     pid = None
     design_ref = None
